@@ -695,6 +695,16 @@ def run_args_case(case: Dict[str, Any]) -> Dict[str, Any]:
             rec["problems"].append(f"call {ci} {call}: the caller's links set / GlobalFilter was written: links {entry['links']} -> "
                                    f"{world['links']}, collection keys {[k for k, _ in entry['coll']]} -> {[k for k, _ in world['coll']]}")
         if all_copy and not (same_plan and same_run):
+            # is the request itself deterministic?  (fresh equal objects, same call, several times)
+            outs = set()
+            for _ in range(8):
+                g2 = do_call(uni, Pool(case, uni), call)
+                g2.pop("session", None)
+                outs.add(json.dumps([g2["err"], g2["plan"] and canon_steps(g2["plan"]), g2["run"]], default=str))
+            if len(outs) > 1:
+                c["nondet"] = True
+                rec["nondet"] = True
+        if all_copy and not (same_plan and same_run) and not c.get("nondet"):
             rec["problems"].append(
                 f"call {ci} {call}: outcome with the shared objects ({got['err'] or 'planned'}, run {got['run'] and got['run'][0]}) differs "
                 f"from the outcome with fresh equal objects ({fgot['err'] or 'planned'}, run {fgot['run'] and fgot['run'][0]})")
@@ -804,6 +814,10 @@ def part_b(rep: vlib.Reporter, tier: str, rng: random.Random) -> bool:
             found = True
             rep.finding("args:" + p[:80] + json.dumps(case, sort_keys=True)[:120], "argument reuse: " + p,
                         {"kind": "args", "case": case, "problem": p})
+    # sequences containing a request whose outcome is not a function of its arguments (it varies between identical calls
+    # on fresh objects: planning-determinism, property C04) cannot be judged against a fresh oracle
+    dist["sequences_with_nondeterministic_request"] = sum(1 for r in recs if r.get("nondet"))
+    recs = [r for r in recs if not r.get("nondet")]
     terms = [cq_args_case(r) for r in recs]
     bad, info = vlib.run_cases("C07", "args", REQ_B, "chk_args", terms, case_type="universe * world * list cobs", shard=60)
     for i in bad[:6]:
